@@ -85,6 +85,7 @@ enum urcu_verif_point_id {
 	URCU_VP_WAIT_WAITER_PRE_RUNNING,
 
 	/* call_rcu */
+	URCU_VP_CRCU_PRE_ENQUEUE,	/* _call_rcu entered, helper chosen, not yet enqueued */
 	URCU_VP_CRCU_ENQUEUED,		/* enqueued, before wake */
 	URCU_VP_CRCU_HELPER_SPLICED,	/* spliced, before synchronize_rcu */
 	URCU_VP_CRCU_HELPER_PRE_SLEEP,	/* futex decremented, before re-check */
